@@ -1,3 +1,4 @@
+import Sparrow.Proofs.KangFFEquiv
 import Sparrow.Proofs.KangRecvEquiv
 import Sparrow.Proofs.KangFnEquiv
 import Sparrow.Proofs.KangArrayLemmas
@@ -317,3 +318,55 @@ theorem runSchedule_single (K : Nat) : runSchedule 1 K = [KangCall.init 0] :=
   Sparrow.runSchedule_single K
 
 end Sparrow.Props.C19.KangRecv
+
+namespace Sparrow.Props.C19.KangFF
+open Sparrow Sparrow.Generated.KangFF
+
+/-- orthogonal walls (`dot_product == 0`, both normals axis-aligned along DIFFERENT axes): the regenerated text is Kang's eq. 11–15 -/
+theorem kangFormFactorPair_orth (thr5 thr12 : ℝ) (wcR wcS nr rc ns sc : Nat → ℝ) (dd : ℝ)
+    (hdot : nr 0 * ns 0 + nr 1 * ns 1 + nr 2 * ns 2 = 0)
+    (hs : AxisAligned (Vec3.ofFn ns) thr5) (hr : AxisAligned (Vec3.ofFn nr) thr5)
+    (hdiff : normalAxis (Vec3.ofFn ns) thr5 ≠ normalAxis (Vec3.ofFn nr) thr5) :
+    kangFormFactorPair thr5 thr12 wcR wcS nr rc ns sc dd =
+      some (kangFFOrth (Vec3.ofFn sc) (Vec3.ofFn rc) (Vec3.ofFn ns) (Vec3.ofFn nr) dd thr5 thr12) :=
+  Sparrow.kangFormFactorPair_orth thr5 thr12 wcR wcS nr rc ns sc dd hdot hs hr hdiff
+
+/-- parallel walls (`dot_product != 0`): eq. 16 with the separating axis read off the wall centres; `none` (AssertionError) exactly
+    when the wall centres coincide within `1e-5` on every axis -/
+theorem kangFormFactorPair_par (thr5 thr12 : ℝ) (wcR wcS nr rc ns sc : Nat → ℝ) (dd : ℝ)
+    (hdot : nr 0 * ns 0 + nr 1 * ns 1 + nr 2 * ns 2 ≠ 0) :
+    kangFormFactorPair thr5 thr12 wcR wcS nr rc ns sc dd =
+      kangFFPar (Vec3.ofFn sc) (Vec3.ofFn rc) (Vec3.ofFn (fun q => |wcR q - wcS q|)) dd thr5 :=
+  Sparrow.kangFormFactorPair_par thr5 thr12 wcR wcS nr rc ns sc dd hdot
+
+/-- a source normal without any component above the threshold is refused (orthogonal branch), not given a form factor -/
+theorem kangFormFactorPair_unbound (thr5 thr12 : ℝ) (wcR wcS nr rc ns sc : Nat → ℝ) (dd : ℝ)
+    (hdot : nr 0 * ns 0 + nr 1 * ns 1 + nr 2 * ns 2 = 0)
+    (h0 : ¬ thr5 < |ns 0|) (h1 : ¬ thr5 < |ns 1|) (h2 : ¬ thr5 < |ns 2|) :
+    kangFormFactorPair thr5 thr12 wcR wcS nr rc ns sc dd = none :=
+  Sparrow.kangFormFactorPair_unbound thr5 thr12 wcR wcS nr rc ns sc dd hdot h0 h1 h2
+
+/-- the writer's column is the patch index plus the patch counts of the other walls visited before -/
+theorem writerColumn_eq (lens : List Nat) (j i : Nat) (hj : j ≤ lens.length) :
+    writerColumn lens j i = i + (lens.take j).sum :=
+  Sparrow.writerColumn_eq lens j i hj
+
+/-- **the reader finds the column the writer filled**: for the `j`-th of the other walls (ids without repetition) and any patch of it,
+    `get_form_factor` reads exactly the column `calculate_form_factor` wrote -/
+theorem readerColumn_eq_writerColumn (other lens : List Nat) (j i : Nat) (hlen : lens.length = other.length)
+    (hj : j < other.length) (hnd : other.Nodup) :
+    readerColumn other lens (other.getD j 0) i = some (writerColumn lens j i) :=
+  Sparrow.readerColumn_eq_writerColumn other lens j i hlen hj hnd
+
+/-- a wall that is not among the other walls has no column -/
+theorem readerColumn_none (other lens : List Nat) (w i : Nat) (hw : w ∉ other) :
+    readerColumn other lens w i = none :=
+  Sparrow.readerColumn_none other lens w i hw
+
+/-- distinct (wall, patch) pairs get distinct columns: no form factor is overwritten by another pair's -/
+theorem writerColumn_injective (lens : List Nat) (j j' i i' : Nat) (hj : j < lens.length) (hj' : j' < lens.length)
+    (hi : i < lens.getD j 0) (hi' : i' < lens.getD j' 0) (h : writerColumn lens j i = writerColumn lens j' i') :
+    j = j' ∧ i = i' :=
+  Sparrow.writerColumn_injective lens j j' i i' hj hj' hi hi' h
+
+end Sparrow.Props.C19.KangFF
